@@ -33,7 +33,7 @@ for p in props:
         m["checks"].append({
             "property_id": cid,
             "quick_cmd": f"bin/check {cid} --tier quick",
-            "thorough_cmd": f"bin/check {cid} --tier thorough",
+            "thorough_cmd": f"bin/check {cid} --tier thorough --race-pass 96",
             "evidence_file": f"/verif/evidence/{cid}.json",
             "replay_cmd_template": f"bin/check {cid} --replay {{path}}",
             "engine": "simnet",
